@@ -147,20 +147,20 @@ static inline void c02_shift(ELEM *first, ELEM *last, ELEM *d_lo, int is_move, i
 /* std::move_backward(first, last, d_last): for n = 1..N  *(d_last - n) = std::move(*(last - n)); returns d_last - N */
 static inline ELEM *c02_std_move_backward(ELEM *first, ELEM *last, ELEM *d_last)
 {
-    c02_shift(first, last, d_last - (last - first), 1, 1, "move_backward");
-    return d_last - (last - first);
+    c02_shift(first, last, d_last - c02_ptr_diff(last, first), 1, 1, "move_backward");
+    return d_last - c02_ptr_diff(last, first);
 }
 /* std::move(first, last, d_first): for n = 0..N-1  *(d_first + n) = std::move(*(first + n)); returns d_first + N */
 static inline ELEM *c02_std_move(ELEM *first, ELEM *last, ELEM *d_first)
 {
     c02_shift(first, last, d_first, 1, 0, "move");
-    return d_first + (last - first);
+    return d_first + c02_ptr_diff(last, first);
 }
 /* std::copy(first, last, d_first): for n = 0..N-1  *(d_first + n) = *(first + n); returns d_first + N */
 static inline ELEM *c02_std_copy(const ELEM *first, const ELEM *last, ELEM *d_first)
 {
     c02_shift((ELEM *)first, (ELEM *)last, d_first, 0, 0, "copy");
-    return d_first + (last - first);
+    return d_first + c02_ptr_diff(last, first);
 }
 
 /* std::copy_n(first, n, d_first) == std::copy(first, first + n, d_first) */
